@@ -357,6 +357,10 @@ def jaxtyped(fn=_sentinel, *, typechecker=_sentinel):
             @ft.wraps(fn)
             def wrapped_fn(*args, **kwargs):  # pyright: ignore
                 __tracebackhide__ = True
+                if config.jaxtyping_disable or getattr(
+                    fn, "__no_type_check__", False
+                ):
+                    return fn(*args, **kwargs)
                 bound = signature.bind(*args, **kwargs)
                 bound.apply_defaults()
                 memos = push_shape_memo(bound.arguments)
